@@ -96,3 +96,22 @@ def result_from(case, violations, info, obs, m, extra_states=(), faults=None):
         'digest': kernel.digest_of([case, [[v['clause'], v['config_name']] for v in violations],
                                     obs['outcome'], obs.get('model_ops'), len(obs['log'])]),
     }
+
+
+REQUIRED_PROBES = ['unaligned_ip', 'op_flips_own_jump_word', 'halt_vs_selfflip', 'input', 'output', 'lazy_zero_touch',
+                   'page_straddle_op', 'same_cache_slot_eviction', 'top_of_space', 'input_bit_in_flip_word',
+                   'magic_word_touched', 'fault_on_flip_word_fetch', 'fault_on_flip', 'fault_on_jump_fetch',
+                   'cause_EOF', 'cause_ip<2w', 'cause_looping', 'w8', 'w16', 'w32', 'w64']
+
+
+def adequacy(tier, agg, required=None, min_cases=500):
+    """a probe stuck at zero means the workload cannot reach what the property is about: harness inadequate (exit 2)"""
+    if agg['evaluations'] < min_cases:
+        return []            # tiny ad-hoc runs (--cases N) are not judged
+    probes = agg['probes']
+    missing = [p for p in (required or REQUIRED_PROBES) if probes.get(p, 0) == 0]
+    out = [f'probe {p} was never reached' for p in missing]
+    for k, (conf, fired) in agg['faults'].items():
+        if conf >= 20 and fired == 0:
+            out.append(f'fault kind {k} was configured {conf} times but never fired')
+    return out
